@@ -373,6 +373,23 @@ pub fn sites(thorough: bool) -> Vec<Site> {
         }),
         Box::new(|b, _| walk_ok(&tables::rqsc::Rqsc, b)),
     );
+    for ty in [0u8, 1, 2, 3, 0xff] {
+        // the same limit with a vendor blob whose type byte coincides with a typed resource kind's code
+        add(
+            Box::leak(format!("RQSC vendor resource data with type byte {} (2-byte resource length: 8 + len)", ty).into_boxed_str()),
+            65_527 - 28,
+            &[65_528 - 28, 65_527, 65_528, 70_000],
+            false,
+            Box::new(move |n| {
+                let mut t = rqsc::RQSC::new(c().oem_id(), c().oem_table_id(), c().oem_rev());
+                let mut q = rqsc::QoSController::new(rqsc::ControllerType::Capacity, acpi_tables::gas::GAS::default(), 1, 1, 0);
+                q.add_resource(rqsc::ResourceStructure::new(rqsc::ResourceType::Cache, 0, rqsc::ResourceID::VendorSpecific(ty, vec![0x5a; n as usize])));
+                t.add_controller(q);
+                ser(&t)
+            }),
+            Box::new(|b, _| walk_ok(&tables::rqsc::Rqsc, b)),
+        );
+    }
     add(
         "RQSC resources per controller (2-byte controller length: 28 + 20n)",
         3275,
